@@ -1,4 +1,10 @@
 ﻿from enum import Enum
+import os as _verif_os
+
+# Verification hooks (honoured only when NSL_VERIF=1): every diagnostic raised
+# is appended to a list installed by the verification harness.
+_verif_enabled = _verif_os.environ.get("NSL_VERIF") == "1"
+_verif_messages = None
 
 
 class ErrorMessage:
@@ -66,6 +72,8 @@ class CompileException(Exception):
     def __init__(self, message, *args):
         self.message = message
         self.messageText = message.message.format(*args)
+        if _verif_enabled and _verif_messages is not None:
+            _verif_messages.append((message.code, self.messageText))
 
     def __str__(self):
         return self.messageText
